@@ -41,7 +41,7 @@ RULE = (
     "Hypothesis draws (configuration, regime, point_seed); configuration = (class NR|R, n_channels, n_poles, L,"
     " meson radius 1|3/2|symbol, phase-space factor real above threshold, route doit|compose) from a per-tier"
     " list (quick: 12 configurations with <=2 channels for every shard + one 3-channel configuration per shard;"
-    " thorough: the full grid 3x4, L<=4); each case evaluates a batch of real parameter points (64 quick, 256"
+    " thorough: the full grid 3x4, L<=4); each case evaluates a batch of real parameter points (64 quick, 512"
     " thorough) in one of the regimes generic/near_threshold/near_pole/wide/degenerate/subthreshold_pole."
     " Non-trivial: (n_channels>=2 or n_poles>=2) and >=20 points of the batch were asserted with a"
     " non-vacuous tolerance (<=1e-3). Distinct = distinct descriptor hash."
@@ -57,9 +57,9 @@ ASSUMPTIONS = [
 ]
 BUDGET = {
     "quick": {"examples": 1280, "shards": 16, "cap_s": 150, "shrink_calls": 150, "shrink_s": 60},
-    "thorough": {"examples": 9600, "shards": 16, "cap_s": 1500, "shrink_calls": 600, "shrink_s": 240},
+    "thorough": {"examples": 4800, "shards": 16, "cap_s": 1500, "shrink_calls": 600, "shrink_s": 240},
 }
-BATCH = {"quick": 64, "thorough": 256}
+BATCH = {"quick": 64, "thorough": 512}
 
 TOL_UNITARY = 1e-9
 TOL_SYMMETRIC = 1e-10
@@ -171,7 +171,8 @@ def _compiled(cls, nc, npo, ell, d, phsp, route):
     if tuple(matrix.shape) != (nc, nc):
         return ("shape", tuple(matrix.shape))
     try:
-        return under_test("doit+lambdify", kmat.compile_matrix, matrix, route, allowed=(kmat.CompileError,))
+        return under_test("doit+lambdify", kmat.compile_matrix, matrix, route, (nc, npo),
+                          allowed=(kmat.CompileError,))
     except kmat.CompileError as exc:
         return ("symbols", str(exc))
 
